@@ -22,6 +22,7 @@ RULE = (
     "temporaries than statements). One ui.Model object (and one set of noise / sensor dictionaries) is also compiled four times with different calibration maps and CSE settings; every compiled object is checked against ITS calibration right after compiling and again after all were compiled. "
     " OPS also has one program per further elementary function (asin .. cot, atan2), linear updates with non-dyadic rational coefficients, and three programs whose intermediates overflow (exp(896)) while the value is defined. After its first compile the caller edits its own dictionaries before the compiled model is first used; the model must still be what it was compiled from."
     " Saturation constructs (sympy Piecewise with comparisons; AST node clip), alone and shared by several outputs, evaluated on both sides of the bounds."
+    " Four programs are also compiled with every other Config field away from its default (extra_validation=True, innovation_filtering=None, max_dt_sec=0.05)."
 )
 ASSUMPTIONS = [
     "expressions limited to the grammar (+ - * /, integer powers 2,3,-1,-2, sin cos tan atan tanh exp log sqrt asin acos atanh sinh cosh asinh acot sec csc cot, atan2), depth <= 3",
